@@ -29,6 +29,7 @@ var commands = map[string]func(args map[string]string){
 	"pubsub":    cmdPubSub,
 	"caster":    cmdCaster,
 	"retry":     cmdRetry,
+	"attempt":   cmdAttempt,
 }
 
 // usage: harness <driver> -k v -k v ...
